@@ -274,8 +274,13 @@ def check_series_consumers(w, rep, uses, rule):
 def run(w, rep, tier):
     rep.rule("C06.table", "every series-table entry is taylor_series_near_zero(u, f) with the default order 6 and threshold 1e-3; the switch is if_else(fabs(x) < eps, series(f), f) of the same f; squared table substitutes sqrt(u)")
     rep.rule("C06.consumers", "each call site of a series-table entry: squared-table entries are even functions of x and are not given a norm; plain-table entries are not given a squared quantity")
+    rep.rule("C06.convert", "sympy_to_casadi, which carries both branches of every table entry into CasADi, converts numbers, powers, sums, products and functions faithfully (the C19.leaf / fold / func obligations)")
     rep.rule("C06.identity", "constant propagation of the identity element / zero vector through exp, log, Ad, Jacobians and conversions: no selected sqrt(0), acos/asin(+-1), division by 0 or atan2(0,0) (each makes the value or its automatic derivative non-finite there)")
     check_table(w, rep)
     check_singularities(w, rep, tier)
+    # the Taylor polynomial and the closed form reach CasADi through sympy_to_casadi: its leaf / fold / function rules (C19)
+    # are part of "the series branch is the Taylor polynomial of f" (seeded C06-9 expanded integer powers one time too many)
+    forward_rules(w, rep, "c19", {"C19.leaf": "C06.convert", "C19.fold": "C06.convert", "C19.func": "C06.convert"}, tier)
+    rep.floor("C06.convert", 10)
     rep.undecided_clause("the 1e-9 accuracy bound on [0, 1] rad and the size of the jump at the switch (floating-point error analysis of both branches)")
     rep.undecided_clause("what sympy's series() returns for each formula (the Taylor coefficients themselves)")
